@@ -257,6 +257,7 @@ theorem World.bufferFrame_bq (w : World) (f : Frame) :
   · subst hr
     simp only [Res.isWriteBufferFull, if_true]
     rcases checkConnectionReset_cases (w0.setCodec c1 t1) (.err (.writeBufferFull f') : Res Unit)
+        (by intro h; cases h)
       with ⟨he, _⟩ | ⟨_, h, _⟩
     · rw [he]
       exact ⟨by simp only [World.setCodec, hpc], by simp only [World.setCodec, hpc],
@@ -269,6 +270,7 @@ theorem World.bufferFrame_bq (w : World) (f : Frame) :
     simp only [hnw, Bool.false_eq_true, if_false]
     rcases checkConnectionReset_cases
         ({ w0.setCodec c1 t1 with queued := w0.queued ++ [f'] } : World) r
+        (by rcases hk with rfl | ⟨k, rfl⟩ <;> (intro h; cases h))
       with ⟨he, _⟩ | ⟨he, hr, _⟩
     · rw [he]
       exact ⟨by simp only [World.setCodec, hpc], by simp only [World.setCodec, hpc],
